@@ -153,7 +153,7 @@ func init() {
 			return c
 		}})
 	Register(propC09{seqProp{id: "C09",
-		rule: "three quarters of the cases: C02-style sequential histories in which the collector runs 1-3 times after (almost) every step, half of the time followed by a drain to exact quiescence (physical deletions done), with snapshot transactions of different ages open and right after Begin; every 4th case is a deep chain; the all-actors read-back after each collector run must equal the model (which ignores the collector), and so must the rest of the history; one quarter: concurrent programs (snapshot readers that begin during the run and read everything twice, multi-key committers, autocommit writers, always a collector actor) judged by C08's interval rules; non-trivial = a collector run happened with an overwritten key present (sequential) / client operations overlapped (concurrent)",
+		rule: "three quarters of the cases: C02-style sequential histories in which the collector runs 1-3 times after (almost) every step, half of the time followed by a drain to exact quiescence (physical deletions done), with snapshot transactions of different ages open and right after Begin; every 4th case is a deep chain; the all-actors read-back after each collector run must equal the model (which ignores the collector), and so must the rest of the history; one quarter: concurrent programs with a collector actor, half of them snapshot readers that begin during the run and read everything twice, multi-key committers and autocommit writers judged by C08's interval rules, half of them autocommit/ReadUncommitted/ReadCommitted readers of one key that a writer keeps overwriting, judged by C06's rules (no foreign content, never ErrNotFound for a key that is never deleted, linearizable); non-trivial = a collector run happened with an overwritten key present (sequential) / client operations overlapped (concurrent)",
 		runs: [2]int{4000, 160000},
 		gen: func(r *simrt.Rand, idx int, tier string) SeqCase {
 			if idx%4 == 3 {
@@ -245,11 +245,73 @@ func init() {
 type propC09 struct{ seqProp }
 
 type C09Case struct {
-	Seq  *SeqCase  `json:"seq,omitempty"`
-	Conc *ConcCase `json:"conc,omitempty"`
+	Seq     *SeqCase  `json:"seq,omitempty"`
+	Conc    *ConcCase `json:"conc,omitempty"`
+	Readers bool      `json:"readers,omitempty"` // Conc comes from genC09Readers and is judged by C06's rules
+}
+
+// genC09Readers: autocommit (and ReadCommitted) readers of one hot key, a writer that keeps
+// overwriting it, and a collector actor that runs again and again in between: whenever the
+// collector runs, no read may lose the key or see anything but a value that was current during it.
+func genC09Readers(r *simrt.Rand) ConcCase {
+	c := ConcCase{Prop: "C09", Final: true}
+	c.World = genConcWorld(r)
+	c.Keys = genKeys(r, 1, 2)
+	hot := c.Keys[0]
+	id := uint64(0)
+	for _, k := range c.Keys {
+		id++
+		c.Init = append(c.Init, Op{K: "set", Key: k, ID: id, Size: smallSize(r)})
+	}
+	var w []Op
+	for i := 0; i < 2+r.Intn(4); i++ {
+		id++
+		w = append(w, Op{K: "set", Key: hot, ID: id, Size: smallSize(r)})
+		if r.Intn(2) == 0 {
+			w = append(w, Op{K: "gc"})
+		}
+		if r.Intn(3) == 0 {
+			w = append(w, Op{K: "yield", N: r.Intn(30)})
+		}
+	}
+	c.Clients = append(c.Clients, w)
+	for n := 0; n < 1+r.Intn(2); n++ {
+		var rd []Op
+		tx := 0
+		if r.Intn(3) == 0 {
+			tx = n + 1
+			rd = append(rd, Op{K: "begin", Tx: tx, Level: r.Intn(2)})
+		}
+		for i := 0; i < 3+r.Intn(4); i++ {
+			k := "get"
+			if r.Intn(4) == 0 {
+				k = "getr"
+			}
+			rd = append(rd, Op{K: k, Tx: tx, Key: hot})
+			if r.Intn(3) == 0 {
+				rd = append(rd, Op{K: "yield", N: r.Intn(20)})
+			}
+		}
+		if tx > 0 {
+			rd = append(rd, Op{K: "commit", Tx: tx})
+		}
+		c.Clients = append(c.Clients, rd)
+	}
+	g := []Op{{K: "gc"}}
+	for i := 0; i < 1+r.Intn(4); i++ {
+		g = append(g, Op{K: "yield", N: r.Intn(40)}, Op{K: []string{"gc", "gc", "gctimer"}[r.Intn(3)]})
+	}
+	c.Clients = append(c.Clients, g)
+	c.Sched = genSched(r, 700)
+	c.Sched.MaxSteps = 600_000
+	return c
 }
 
 func (p propC09) Gen(r *simrt.Rand, idx int, tier string) any {
+	if idx%8 == 5 {
+		c := genC09Readers(r)
+		return C09Case{Conc: &c, Readers: true}
+	}
 	if idx%4 == 1 {
 		c := genC08(r, idx, tier)
 		c.Prop = "C09"
@@ -285,6 +347,14 @@ func (p propC09) Exec(x any, choices []int32) RunOut {
 		return out
 	}
 	out.NonTrivial = cr.overlaps() > 0
+	if c.Readers {
+		if v := checkC06(*c.Conc, cr, &out); v != nil {
+			v.Signature = "C09" + strings.TrimPrefix(v.Signature, "C06") + ",collector-concurrent"
+			v.Detail += "\nhistory (event numbers):\n" + cr.histText(60)
+			out.Violation = v
+		}
+		return out
+	}
 	if v := checkC08(*c.Conc, cr, &out); v != nil {
 		v.Signature = "C09" + strings.TrimPrefix(v.Signature, "C08") + ",collector-concurrent"
 		v.Detail += "\nhistory (event numbers):\n" + cr.histText(60)
@@ -304,7 +374,7 @@ func (p propC09) Shrink(x any) []any {
 	}
 	for _, d := range concShrink(*c.Conc) {
 		d := d
-		out = append(out, C09Case{Conc: &d})
+		out = append(out, C09Case{Conc: &d, Readers: c.Readers})
 	}
 	return out
 }
